@@ -215,6 +215,10 @@ def main(argv):
                   open(path, 'w'), indent=1)
         lines.append(f"VIOLATION property={prop} replay={path}")
         lines.append(f"  key={k} count={v['count']}")
+        try:
+            lines.append('  witness: ' + json.dumps(w.get('witness', w))[:2500])
+        except Exception:
+            pass
 
     n_nontrivial = len(nontrivial)
     wall = time.time() - t0
